@@ -795,10 +795,14 @@ pub struct Probe {
   /// when set, the counters are copied into `snap` the moment a terminal arrives
   pub cn: Option<Sh<Counters>>,
   pub snap: Sh<Option<Counters>>,
+  /// feedback: on receiving `I(n)` with n among the triggers the subscriber itself sends `I(n + 5000)` into hot input 0
+  /// (a consumer that feeds its source from inside its callback); every such emission is logged in `fb_log`
+  pub fb: Option<(Subj, Vec<i64>)>,
+  pub fb_log: Sh<Vec<(usize, u64, V)>>,
 }
 impl Probe {
   pub fn new() -> Probe {
-    Probe { log: sh(Vec::new()), cn: None, snap: sh(None) }
+    Probe { log: sh(Vec::new()), cn: None, snap: sh(None), fb: None, fb_log: sh(Vec::new()) }
   }
   pub fn events(&self) -> Vec<Ev> {
     lock!(self.log).iter().map(|r| r.ev.clone()).collect()
@@ -816,12 +820,27 @@ impl Probe {
     }
     crate::stamp::evseq_bump();
     let r = Rec { ev, step: crate::stamp::get(), vt: as_ticks(crate::vtime::now()) };
-    lock!(self.log).push(r);
+    let mut log = lock!(self.log);
+    // no generated case produces anywhere near this many notifications: a producer spinning without the clock
+    // moving (e.g. a repeating task re-armed with a zero delay) becomes a panic verdict instead of a hang
+    if log.len() >= 200_000 {
+      drop(log);
+      panic!("verif: notification storm: more than 200000 notifications reached one subscriber");
+    }
+    log.push(r);
   }
 }
 impl Observer<V, E> for Probe {
   fn next(&mut self, v: V) {
-    self.push(Ev::N(v))
+    let fed = match (&self.fb, &v) {
+      (Some((_, trig)), V::I(n)) if trig.contains(n) => Some(V::I(*n + 5000)),
+      _ => None,
+    };
+    self.push(Ev::N(v));
+    if let (Some(w), Some((subj, _))) = (fed, &self.fb) {
+      lock!(self.fb_log).push((crate::stamp::get(), as_ticks(crate::vtime::now()), w.clone()));
+      subj.clone().next(w);
+    }
   }
   fn error(self, e: E) {
     self.push(Ev::Er(e))
@@ -896,6 +915,11 @@ fn conv_kind(k: IKind) -> InputKind {
 
 /// run a pipeline case on the real library (single thread, virtual time)
 pub fn exec(case: &PCase, sample_closed: bool) -> Trace {
+  exec_fb(case, sample_closed, &[])
+}
+
+/// like `exec`; with triggers the final subscriber feeds hot input 0 from inside its `next` callback (see `Probe::fb`)
+pub fn exec_fb(case: &PCase, sample_closed: bool, fb: &[i64]) -> Trace {
   use crate::vtime;
   vtime::reset(conv_mode(case.mode));
   crate::stamp::set(crate::stamp::AT_SUBSCRIBE);
@@ -904,6 +928,9 @@ pub fn exec(case: &PCase, sample_closed: bool) -> Trace {
   let p = build(&case.node, &env);
   let mut probe = Probe::new();
   probe.cn = Some(env.counters.clone());
+  if !fb.is_empty() {
+    probe.fb = Some((env.hot[0].clone(), fb.to_vec()));
+  }
   let mut sub: Option<BSub> = Some(p.actual_subscribe(probe.clone()));
   let mut guard: Option<SubscriptionGuard<BSub>> = None;
   let mut tr = Trace::default();
@@ -982,6 +1009,7 @@ pub fn exec(case: &PCase, sample_closed: bool) -> Trace {
     }
   }
   tr.recs = probe.recs();
+  tr.fb = lock!(probe.fb_log).clone();
   tr.counters = lock!(env.counters).clone();
   tr.counters.clock_firings = vtime::total_firings();
   tr.live_tasks_end = vtime::live_tasks();
